@@ -712,6 +712,11 @@ class Gen:
             self.nameexpr_call(F, lvl, where)
             if self.p(0.3) and F.last in ").":
                 F.t(self.ch(["_x", "1", "n"]))
+            elif F.last not in ")." and self.p(0.5):
+                # an argument-less call continued by a macro variable reference: `%m&i`, `%pre&i._x`
+                self.mvar(F, dots=1)
+                if self.p(0.3) and F.last == ".":
+                    F.t(self.ch(["_x", "1", "n"]))
 
     def nameexpr_call(self, F, lvl, where):
         k = self.wch([(5, "user"), (4, "builtin")])
